@@ -288,6 +288,67 @@ fn main() {
         });
     };
 
+    // ---- scripts: several statements on ONE executor (state carried from one statement to the next)
+    let tpl_texts = |tpl: &Tpl, v0: &PropertyValue, v1: &PropertyValue| -> (String, String, bool) {
+        let mut pm: HashMap<u32, PropertyValue> = HashMap::new();
+        pm.insert(0, v0.clone());
+        pm.insert(1, v1.clone());
+        match tpl {
+            Tpl::Model(st) => (st.cypher(), st.inline(&pm).cypher(), !st.cls.iter().any(|c| c.is_write())),
+            Tpl::Raw(t) => (t.clone(), t.replace("$p0", &lit_cypher(v0)).replace("$p1", &lit_cypher(v1)), !["CREATE", "MERGE", " SET ", "DELETE", "REMOVE"].iter().any(|k| t.contains(k))),
+        }
+    };
+    let named_of = |v0: &PropertyValue, v1: &PropertyValue| -> HashMap<String, PropertyValue> {
+        let mut named = HashMap::new();
+        named.insert("p0".to_string(), v0.clone());
+        named.insert("p1".to_string(), v1.clone());
+        named
+    };
+    // steps: (template name, template, $p0, $p1); `kind` = "script" (one with_params), "script-reparam" (new
+    // parameter values before a later statement) — each also through the read executor when every step is read-only
+    let mut run_script = |kind: &str, steps: &[(&str, &Tpl, PropertyValue, PropertyValue)], cases: &mut Vec<Case>| {
+        let texts: Vec<(String, String, bool)> = steps.iter().map(|(_, t, a, b)| tpl_texts(t, a, b)).collect();
+        let script_p: Vec<(String, Option<HashMap<String, PropertyValue>>)> = steps.iter().zip(texts.iter()).map(|((_, _, a, b), (tp, _, _))| (tp.clone(), Some(named_of(a, b)))).collect();
+        let all_text_p = texts.iter().map(|t| t.0.clone()).collect::<Vec<_>>().join(" ;; ");
+        let all_text_i = texts.iter().map(|t| t.1.clone()).collect::<Vec<_>>().join(" ;; ");
+        let mut push = |cases: &mut Vec<Case>, label: &str, outs_p: &[Outcome], outs_i: &[Outcome], final_p: &str, final_i: &str, pre: &str| {
+            for (k, (op, oi)) in outs_p.iter().zip(outs_i.iter()).enumerate() {
+                let last = k + 1 == outs_p.len();
+                let (gp, gi) = if last { (final_p, final_i) } else { ("-|-", "-|-") };
+                cases.push(Case {
+                    name: format!("{}:{}", label, steps[k].0),
+                    obs_p: obs_text(op, gp),
+                    obs_i: obs_text(oi, gi),
+                    ok_p: op.rows.is_ok(),
+                    changed: last && final_p != pre,
+                    rows_p: op.rows.as_ref().map(|r| rows_text(r)).unwrap_or_default(),
+                    text_p: format!("[stmt {} of] {}", k + 1, all_text_p),
+                    text_i: format!("[stmt {} of] {}", k + 1, all_text_i),
+                    term: None,
+                    params: vec![(0, steps[k].2.clone()), (1, steps[k].3.clone())],
+                    pre: pre.to_string(),
+                });
+            }
+        };
+        // one MutQueryExecutor for the whole script  vs  fresh executors on the inlined text
+        let mut sp = build_store();
+        let pre = dump(&sp);
+        let outs_p = exec_script_mut(&mut sp, &script_p);
+        let final_p = dump(&sp);
+        let mut si = build_store();
+        let outs_i: Vec<Outcome> = texts.iter().map(|t| exec(&mut si, &t.1, None)).collect();
+        let final_i = dump(&si);
+        push(cases, kind, &outs_p, &outs_i, &final_p, &final_i, &pre);
+        // one read-only QueryExecutor (same parameters throughout)
+        if kind == "script" && texts.iter().all(|t| t.2) {
+            let s0 = build_store();
+            let named = named_of(&steps[0].2, &steps[0].3);
+            let rp = exec_script_read(&s0, &texts.iter().map(|t| t.0.clone()).collect::<Vec<_>>(), Some(&named));
+            let ri: Vec<Outcome> = texts.iter().map(|t| exec_read(&s0, &t.1, None)).collect();
+            push(cases, "script-read", &rp, &ri, &pre, &pre, &pre);
+        }
+    };
+
     // corpus / replay: `<template name> ||| <value name> ||| <value name>`
     let mut files: Vec<std::path::PathBuf> = vec![];
     if let Some(r) = &args.replay {
@@ -301,6 +362,21 @@ fn main() {
     for f in &files {
         for line in std::fs::read_to_string(f).unwrap_or_default().lines() {
             let line = line.trim();
+            if let Some(rest) = line.strip_prefix("script ") {
+                // `script <tpl> > <tpl> [> <tpl>] ||| <value of $p0> ||| <value of $p1>`
+                let fs: Vec<&str> = rest.split(" ||| ").collect();
+                if fs.len() == 3 {
+                    if let (Some(a), Some(b)) = (find_val(fs[1]), find_val(fs[2])) {
+                        let steps: Vec<(&str, &Tpl, PropertyValue, PropertyValue)> =
+                            fs[0].split(" > ").filter_map(|n| tpls.iter().find(|(m, _)| *m == n.trim())).map(|(n, t)| (*n, t, a.clone(), b.clone())).collect();
+                        if steps.len() >= 2 {
+                            run_script("script", &steps, &mut cases);
+                            n_corpus += 1;
+                        }
+                    }
+                }
+                continue;
+            }
             let line = line.strip_prefix("case ").unwrap_or(line);
             if line.is_empty() || line.starts_with('#') {
                 continue;
@@ -332,8 +408,33 @@ fn main() {
             }
         }
         rep.exhaustive = true;
-        rep.exhaustive_note = format!("{} templates x {} boundary values for $p0 with $p1 = 1 (the 3vl-* templates also with $p1 in null/true/false); plus random (template, $p0, $p1) triples", tpls.len(), vals.len());
+        rep.exhaustive_note = format!("{} templates x {} boundary values for $p0 with $p1 = 1 (the 3vl-* templates also with $p1 in null/true/false); plus random (template, $p0, $p1) triples; plus scripts on ONE executor: every template as the second statement x 6 values, and random 2-4 statement scripts (a third of them re-parameterised between statements)", tpls.len(), vals.len());
+        // scripts: every template as the SECOND statement after a parameterised first one (same executor),
+        // with three characteristic values; then random scripts of 2-4 statements and re-parameterised ones
+        let script_tpls: Vec<&(&'static str, Tpl)> = tpls.iter().filter(|(n, _)| *n != "param-map-access").collect();
+        let probe_vals = [PropertyValue::Integer(5), PropertyValue::Boolean(false), PropertyValue::Null, PropertyValue::Integer(1), PropertyValue::String("a".into()), PropertyValue::Array(vec![PropertyValue::Integer(1), PropertyValue::Integer(2), PropertyValue::Integer(3)])];
+        let first = tpls.iter().find(|(n, _)| *n == "return").unwrap();
+        for (name, tpl) in script_tpls.iter().map(|x| (x.0, &x.1)) {
+            for v0 in &probe_vals {
+                let one = PropertyValue::Integer(1);
+                run_script("script", &[(first.0, &first.1, v0.clone(), one.clone()), (name, tpl, v0.clone(), one.clone())], &mut cases);
+            }
+        }
         let mut rng = Rng::new(vharness::util::fnv(&format!("c35-{}", args.seed)));
+        let n_scripts = if args.thorough() { 3000 } else { 300 };
+        for _ in 0..n_scripts {
+            let len = 2 + rng.usize(3);
+            let v0 = vals[rng.usize(vals.len())].1.clone();
+            let v1 = vals[rng.usize(vals.len())].1.clone();
+            let reparam = rng.chance(1, 3);
+            let mut steps: Vec<(&str, &Tpl, PropertyValue, PropertyValue)> = vec![];
+            for _ in 0..len {
+                let t = script_tpls[rng.usize(script_tpls.len())];
+                let (a, b) = if reparam { (vals[rng.usize(vals.len())].1.clone(), vals[rng.usize(vals.len())].1.clone()) } else { (v0.clone(), v1.clone()) };
+                steps.push((t.0, &t.1, a, b));
+            }
+            run_script(if reparam { "script-reparam" } else { "script" }, &steps, &mut cases);
+        }
         let n_rand = if args.thorough() { 6000 } else { 500 };
         for _ in 0..n_rand {
             let (name, tpl) = &tpls[rng.usize(tpls.len())];
